@@ -1,2 +1,7 @@
 -- family block: C28 C31 C32 C33 C35.  Everything listed here must build: it is part of `lake build`.
 import Thanos.Driver.Block
+import Thanos.Props.C28
+import Thanos.Props.C31
+import Thanos.Props.C32
+import Thanos.Props.C33
+import Thanos.Props.C35
